@@ -23,9 +23,12 @@ import vlib
 def body(c):
     q = c.quick
     # 1. design level: own writes in the contract state machine
-    mc = dict(K.MC_DEFAULT, Feat='{"iter", "split"}', Exps="{0, 2}", MaxNow="2", IterDirs="{FALSE, TRUE}")
+    if q:
+        mc = dict(K.MC_DEFAULT, Feat='{"iter", "split"}')
+    else:
+        mc = dict(K.MC_DEFAULT, Feat='{"iter", "split"}', Exps="{0, 2}", MaxNow="2", IterDirs="{FALSE, TRUE}")
     K.model_check(c, "ownwrites-2txn-2key-splititer", mc, ["TypeOK", "OwnWrites", "IterAgreesWithGet", "SnapshotRead"],
-                  ["SnapshotStable"], bound="nval <= 2" if q else "nval <= 3", timeout=300 if q else 1500)
+                  ["SnapshotStable"], bound="nval <= 2", timeout=3000)
     # 2. exhaustive overlay cases
     tab = K.key_table(c.seed)
     kc = K.key_consts(tab)
@@ -34,8 +37,8 @@ def body(c):
     cons = dict(kc, StoreKeys=K.tla_set(sk), TsSet="1..3", Kinds='{"val", "del"}', MaxVersions="3", Contiguous="TRUE",
                 OnePerKey="TRUE", ReadTs="0", Now="5", PendKeys=K.tla_set(sk), PendKinds='{"val", "del", "meta"}',
                 MaxPend="2" if q else "3", Queries=queries)
-    groups, ncases = K.gen_store(c, "overlay-3keys", cons, workers=10 if q else 14, timeout=400 if q else 3000,
-                                 check_theorems=not q)
+    groups, ncases = K.gen_store(c, "overlay-3keys", cons, workers=10 if q else 14, timeout=3000,
+                                 check_theorems=True)
     nq = sum(len(r["q"]) for g in groups for r in g["runs"])
     c.cov["overlay_cases"] = {"snapshots": len(groups), "snapshot_x_pending": ncases, "predicted_iterator_sequences": nq,
                               "max_pending_ops": int(cons["MaxPend"]), "queries_per_case": len(groups[0]["runs"][0]["q"])}
@@ -51,8 +54,8 @@ def body(c):
     # 3. long transactions (many own writes, iterators opened before later writes)
     sim = K.hist_consts(tab, Exps="{0, 3}", MaxNow="3", HistLen="36", MaxOps="9", MaxActive="2", WriteWeight="2",
                         SplitIter="TRUE", IterOptList=K.iter_templates(tab, rich=True), EnvSteps=K.tla_set(["flush", "compactL0"]))
-    n = 400 if q else 6000
-    sims = K.generate(c, "sim-long-txns", sim, n, 36, c.seed, workers=8 if q else 12, timeout=240 if q else 900)
+    n = 300 if q else 2500
+    sims = K.generate(c, "sim-long-txns", sim, n, 36, c.seed, workers=8 if q else 12, timeout=1800)
     c.cov["generated_op_histogram"] = K.op_histogram(sims)
 
     def own(h):
